@@ -21,11 +21,15 @@ type statUpd struct {
 }
 
 func (p *Prog) statUpdates(fn *ssa.Function) []statUpd {
+	return p.statUpdatesOf(p.Info(fn).Instrs)
+}
+
+func (p *Prog) statUpdatesOf(instrs []ssa.Instruction) []statUpd {
 	addI := p.Func("skiplist", "Stats", "AddInt64")
 	addU := p.Func("skiplist", "Stats", "AddUint64")
 	sizeFn := p.Func("skiplist", "Skiplist", "Size")
 	var out []statUpd
-	for _, in := range p.Info(fn).Instrs {
+	for _, in := range instrs {
 		if !p.IsCall(in, addI, addU) {
 			continue
 		}
@@ -88,7 +92,7 @@ func clAccounting(c *Ctx) {
 		level ssa.Value
 	}
 	var ins []inSite
-	ins = append(ins, inSite{ins4, ssa.Value(ins4.Params[1]), ssa.Value(ins4.Params[5])})
+	ins = append(ins, inSite{ins4, strip(ins4.Params[1]), strip(ins4.Params[5])})
 	// Segment.Add: node = result of store.newNode(itm, itemLevel)
 	for _, in := range p.Info(segAdd).Instrs {
 		if call, ok := in.(*ssa.Call); ok && call.Call.StaticCallee() == nil && !call.Call.IsInvoke() && lastField(call.Call.Value) == fNewNode {
@@ -140,7 +144,7 @@ func clAccounting(c *Ctx) {
 		var level0 ssa.Value
 		for _, d := range p.CallSites(ins4, dcas) {
 			a := callOf(d).Args
-			if strip(a[0]) != ssa.Value(ins4.Params[1]) && strip(a[3]) == ssa.Value(ins4.Params[1]) && isConstInt(0)(a[1]) {
+			if strip(a[0]) != strip(ins4.Params[1]) && strip(a[3]) == strip(ins4.Params[1]) && isConstInt(0)(a[1]) {
 				level0 = d.(ssa.Value)
 			}
 		}
@@ -154,8 +158,8 @@ func clAccounting(c *Ctx) {
 	{
 		fi := p.Info(help)
 		us := p.statUpdates(help)
-		curr := ssa.Value(help.Params[3])
-		lvl := ssa.Value(help.Params[1])
+		curr := strip(help.Params[3])
+		lvl := strip(help.Params[1])
 		cs := p.CallSites(help, dcas)
 		if len(cs) != 1 {
 			undecidedf("helpDelete: unlink CAS not found")
@@ -195,12 +199,20 @@ func clAccounting(c *Ctx) {
 		if fn.Package().Pkg.Path() != modPath+"/skiplist" && fn.Package().Pkg.Path() != modPath {
 			continue
 		}
-		for _, u := range p.statUpdates(fn) {
+		for _, u := range p.statUpdatesOf(p.Own(fn)) {
 			tbl, ok := allowed[u.field]
 			if !ok {
 				continue
 			}
 			want, okFn := tbl[fname(fn)]
+			if !okFn {
+				// the owner may have been split into transparent helpers, or be one itself
+				for name, w := range tbl {
+					if o := p.funcByFname(name); o != nil && p.sameRoot(o, fn) {
+						want, okFn = w, true
+					}
+				}
+			}
 			c.Check(okFn && want == u.delta, fn, u.in, cnt.in(fn, "counter "+u.field+" "+u.delta+" by its owner"), "a structure counter is updated outside the frozen accounting table")
 		}
 	}
@@ -223,7 +235,7 @@ func clStatsExhaustive(c *Ctx) {
 	st := p.Named("skiplist", "Stats").Underlying().(*types.Struct)
 	merge := p.Func("skiplist", "Stats", "Merge")
 	apply := p.Func("skiplist", "StatsReport", "Apply")
-	recv, src := ssa.Value(merge.Params[0]), ssa.Value(merge.Params[1])
+	recv, src := strip(merge.Params[0]), strip(merge.Params[1])
 	n := 0
 	for i := 0; i < st.NumFields(); i++ {
 		f := st.Field(i)
@@ -349,14 +361,14 @@ func clLocalStatsOwners(c *Ctx) {
 		merged, applied := false, false
 		cnt := counter{}
 		for _, fn := range p.Funcs {
-			for _, in := range p.Info(fn).Instrs {
+			for _, in := range p.Own(fn) {
 				fa, ok := in.(*ssa.FieldAddr)
 				if !ok || fieldVarOf(fa) != fv {
 					continue
 				}
 				okOwner := false
 				for _, o := range owners[name] {
-					if fname(fn) == o || strings.HasPrefix(fname(fn), o+"$") {
+					if fname(p.Root(fn)) == o || strings.HasPrefix(fname(p.Root(fn)), o+"$") {
 						okOwner = true
 					}
 				}
